@@ -112,6 +112,8 @@ def population():
                                  created='2020-01-05T00:00:00Z', modified='2020-01-05T00:00:00Z'))
     objs.append(v21.File(id=ID('file', 6), name='f.txt', hashes={'MD5': 'a' * 32}))
     objs.append(v21.Identity(id='identity--ABCDEF07-0000-4000-8000-00000000ABCD', name='UPPER', created='2020-01-06T00:00:00Z', modified='2020-01-06T00:00:00Z'))
+    # a type whose name has another stored type's name as a proper prefix (directory names, type whitelists / blacklists are compared whole)
+    objs.append(v21.MalwareAnalysis(id=ID('malware-analysis', 10), product='p', result='benign', created='2020-01-08T00:00:00Z', modified='2020-01-08T00:00:00Z'))
     # a 2.0 object: its timestamps carry exact millisecond precision, filter strings do not
     objs.append(stix2.v20.Identity(id=ID('identity', 8), name='old', identity_class='individual', created='2020-01-07T00:00:00.123Z', modified='2020-01-07T00:00:00.123Z'))
     return objs
@@ -121,7 +123,7 @@ def filter_pool():
     import stix2
     F = stix2.Filter
     t = lambda s: s
-    pool = [F('type', '=', 'identity'), F('type', '=', 'tool'), F('type', '!=', 'identity'), F('type', 'in', ['identity', 'tool']), F('type', 'in', ['malware']),
+    pool = [F('type', '=', 'identity'), F('type', '=', 'tool'), F('type', '!=', 'identity'), F('type', '!=', 'malware'), F('type', '=', 'malware'), F('type', '!=', 'malware-analysis'), F('type', 'in', ['malware-analysis']), F('type', '!=', 'too'), F('type', 'in', ['identity', 'tool']), F('type', 'in', ['malware']),
             F('type', 'in', 'tools'), F('type', 'in', 'identity-tool'), F('type', '=', ['identity']), F('type', '>', 'identity'), F('type', 'contains', 'oo'),
             F('id', '=', ID('identity', 1)), F('id', '!=', ID('identity', 1)), F('id', 'in', [ID('identity', 1), ID('tool', 3)]), F('id', 'in', [ID('identity', 2)]),
             F('id', 'in', [ID('malware', 4), ID('identity', 1)]), F('id', 'in', [ID('identity', 1), ID('malware', 4), ID('tool', 3)]),          # (ids of several types, several versions each)
